@@ -7,7 +7,8 @@ EXPLANATION = (
     "set_now is the time component of this iteration's fetch_next result, the write is off the limit path and dominates "
     "the Event::handle call; (R3) Builder::build sets the clock to the configured start time; (R4) every route from the "
     "public scheduling API into FutureEventSet::add is guarded by `time >= L` (panic otherwise) where L is initialised "
-    "from the start time and follows every dispatched event — on both event-set back ends. "
+    "from the start time and follows every dispatched event — on both event-set back ends; (R5) SimTime::now() rebuilds exactly what "
+    "SimTime::set_now() stored (matching cells, no narrowing cast). "
     "Decides these necessary conditions only; monotonicity over a run additionally needs the event set's order (C01, not decided).")
 ASSUMPTIONS = ["atomic stores/loads behave as documented; the clock static is only reachable through its def path"]
 USES_B = True
